@@ -22,6 +22,8 @@ pub enum ChainOp {
     MoveAcross { pos: u16, to: u16 },
     RemoveKey { arr: bool },
     Same,
+    /// many elements at once: arrays longer than 100 (size thresholds in the diff / patch code)
+    Bulk { arr: bool, n: u8 },
     Commit,
     Reopen,
     Snapshot,
@@ -38,6 +40,7 @@ pub fn strategy(thorough: bool) -> BoxedStrategy<Vec<ChainOp>> {
         3 => (any::<u16>(), any::<u16>()).prop_map(|(pos, to)| ChainOp::MoveAcross { pos, to }),
         1 => any::<bool>().prop_map(|arr| ChainOp::RemoveKey { arr }),
         1 => Just(ChainOp::Same),
+        1 => (any::<bool>(), 90u8..150).prop_map(|(arr, n)| ChainOp::Bulk { arr, n }),
         3 => Just(ChainOp::Commit),
         2 => Just(ChainOp::Reopen),
         1 => Just(ChainOp::Snapshot),
@@ -141,6 +144,21 @@ pub fn run(ops: &[ChainOp]) -> CaseRes {
                     }
                 }
                 ChainOp::Same => {}
+                ChainOp::Bulk { arr, n } => {
+                    let used: Vec<String> = a.iter().flatten().chain(b.iter().flatten()).cloned().collect();
+                    let t = if *arr { &mut b } else { &mut a };
+                    let v = t.get_or_insert_with(Vec::new);
+                    let mut k = 0;
+                    let mut added = 0;
+                    while added < *n as usize {
+                        let id = format!("e{:03}", k);
+                        k += 1;
+                        if !used.contains(&id) && !v.contains(&id) {
+                            v.push(id);
+                            added += 1;
+                        }
+                    }
+                }
                 ChainOp::Commit => {
                     submit = false;
                     w.op_commit(0, None)?;
